@@ -23,11 +23,20 @@ CK = "dclab.rtdc_dataset.check:check_dataset"
 N = 5
 
 
-def base_file(path, seed=0):
+def base_file(path, seed=0, fl=1):
+    """fl: the fluorescence channel the file uses (1, 2 or 3)."""
     gen.register_user_features()
     ev = gen.make_events(N, seed=seed, special=False)
     ev.pop(gen.USER_FEAT)
-    gen.write_rtdc(path, ev, logs={"vf-log": ["a line"]})
+    meta = gen.complete_meta(N)
+    if fl != 1:
+        ev[f"fl{fl}_max"] = ev.pop("fl1_max")
+        ev["trace"] = {f"fl{fl}_raw": ev["trace"]["fl1_raw"],
+                       f"fl{fl}_median": ev["trace"]["fl1_median"]}
+        m = meta["fluorescence"]
+        for k in ("channel 1 name", "laser 1 lambda", "laser 1 power"):
+            m[k.replace("1", str(fl))] = m.pop(k)
+    gen.write_rtdc(path, ev, meta=meta, logs={"vf-log": ["a line"]})
     return path
 
 
@@ -75,11 +84,13 @@ def _extlink(tag):
     return f
 
 
-def corruption_menu():
+def corruption_menu(fl=1):
     """(name, group, apply, expected substring in a violation). Corruptions
     of the same group are not combined."""
     from dclab.rtdc_dataset import check
     menu = []
+    flm = f"fl{fl}_max"
+    flr = f"fl{fl}_raw"
     for sec, keys in list(check.IMPORTANT_KEYS.items()) + list(
             check.IMPORTANT_KEYS_FL.items()):
         for k in keys:
@@ -95,8 +106,8 @@ def corruption_menu():
          "wrong event count: 'deform'"),
         ("deform length +1", "len deform", _resize("deform", 1),
          "wrong event count: 'deform'"),
-        ("fl1_max length +1", "len fl1_max", _resize("fl1_max", 1),
-         "wrong event count: 'fl1_max'"),
+        ("fl max length +1", "len flmax", _resize(flm, 1),
+         f"wrong event count: '{flm}'"),
         ("image length -1", "len image", _resize("image", -1),
          "wrong event count: 'image'"),
         ("mask length +1", "len mask", _resize("mask", 1),
@@ -104,8 +115,8 @@ def corruption_menu():
         ("contour entry deleted", "len contour", _del_contour,
          "wrong event count: 'contour'"),
         ("trace length -1", "len trace",
-         lambda h5: h5["events/trace/fl1_raw"].resize(N - 1, axis=0),
-         "wrong event count: 'trace/fl1_raw'"),
+         lambda h5: h5[f"events/trace/{flr}"].resize(N - 1, axis=0),
+         f"wrong event count: 'trace/{flr}'"),
         # (combined with a length change of one feature it would *agree*
         # with that feature: not compatible with the "len ..." entries)
         ("event count +1", "len",
@@ -230,9 +241,10 @@ def _clean_case(args):
 
 
 def _corrupt_case(args):
-    combos, copies, seed, scratch = args
+    combos, copies, seed, scratch = args[:4]
+    fl = args[4] if len(args) > 4 else 1
     from dclab import cli
-    menu = corruption_menu()
+    menu = corruption_menu(fl)
     d = scratch / f"c13_cor_{os.getpid()}"
     if d.exists():
         shutil.rmtree(d)
@@ -240,11 +252,12 @@ def _corrupt_case(args):
     out = []
     cnt = 0
     try:
-        base = base_file(d / "base.rtdc", seed)
+        base = base_file(d / "base.rtdc", seed, fl)
         for combo in combos:
             cnt += 1
             names = [menu[i][0] for i in combo]
-            case = {"kind": "corrupt", "names": names, "seed": seed}
+            case = {"kind": "corrupt", "names": names, "seed": seed,
+                    "fl": fl}
             tags = {"n": len(combo)}
             p = d / "c.rtdc"
             shutil.copy(base, p)
@@ -328,6 +341,16 @@ def run(ctx):
     chunks = [singles[k::16] for k in range(16)]
     res += par.pmap(_corrupt_case, [(c, True, ctx.seed, scratch)
                                     for c in chunks if c])
+    # the same menu on files that use only fluorescence channel 3 / 2
+    for flv in (3, 2):
+        res += par.pmap(_corrupt_case, [
+            (singles[k::8], False, ctx.seed, scratch, flv)
+            for k in range(8)])
+    flidx = [i for i, m in enumerate(menu) if "fluorescence" in m[1]]
+    flpairs = [(i, j) for i, j in itertools.combinations(flidx, 2)
+               if compatible(i, j)]
+    res += par.pmap(_corrupt_case, [
+        (flpairs[k::8], False, ctx.seed, scratch, 3) for k in range(8)])
     pchunks = [pairs[k::16] for k in range(16)]
     res += par.pmap(_corrupt_case, [(c, False, ctx.seed, scratch)
                                     for c in pchunks if c])
@@ -358,8 +381,9 @@ def replay(case, ctx):
     if case["kind"] == "clean":
         _, vs = _clean_case((case["route"], case["seed"], ctx.scratch))
         return vs
-    menu = corruption_menu()
+    menu = corruption_menu(case.get("fl", 1))
     idx = tuple(i for n in case["names"] for i, m in enumerate(menu)
                 if m[0] == n)
-    _, vs = _corrupt_case(([idx], len(idx) == 1, case["seed"], ctx.scratch))
+    _, vs = _corrupt_case(([idx], len(idx) == 1 and case.get("fl", 1) == 1,
+                           case["seed"], ctx.scratch, case.get("fl", 1)))
     return vs
